@@ -28,7 +28,16 @@ def confirm(wt, mut):
     results = re.findall(r"test result: (\w+)\. (\d+) passed; (\d+) failed", out)
     res["with_patch"] = results
     unit_ok = any(r[0] == "ok" and r[1] == "81" for r in results)
-    demo_failed = (any(r[0] == "FAILED" for r in results) and "demo" in out) or re.search(r"error: test failed, to rerun pass `--test demo`", out) is not None
+    # store_tests::general_ops / baked_similarity assert 10 ms wall-clock windows and fail now and
+    # then on a loaded machine, on the unchanged tree too: the unit tests are re-run (alone)
+    tries = 0
+    while not unit_ok and tries < 4:
+        tries += 1
+        rc_u, out_u = sh("cargo test --offline --lib 2>&1", cwd=wt)
+        unit_ok = re.search(r"test result: ok\. 81 passed; 0 failed", out_u) is not None
+        res.setdefault("unit_failures_seen", []).extend(re.findall(r"^test (\S+) \.\.\. FAILED", out_u, re.M))
+    res["unit_reruns"] = tries
+    demo_failed = (re.search(r"Running tests/demo.rs[^\n]*\n(?:.*\n)*?test result: FAILED", out) is not None) or re.search(r"error: test failed, to rerun pass `--test demo`", out) is not None
     compiled = "error: could not compile" not in out
     sh("git checkout -- src", cwd=wt)
     rc2, out2 = sh("cargo test --offline --test demo 2>&1", cwd=wt)
